@@ -5,6 +5,7 @@ import (
 	"math"
 	"reflect"
 	"strings"
+	"unicode/utf8"
 
 	yaml "gopkg.in/yaml.v2"
 )
@@ -309,7 +310,8 @@ func (sv stringValue) Contains(substr Value) bool {
 
 func (sv stringValue) PropertyValue(iv Value) Value {
 	if iv.Interface() == sizeKey {
-		return ValueOf(reflect.ValueOf(sv.value).Len())
+		// characters, as the size filter counts them
+		return ValueOf(utf8.RuneCountInString(reflect.ValueOf(sv.value).String()))
 	}
 	return nilValue
 }
